@@ -192,60 +192,83 @@ Example C14_lost_body_write_example :
   open_view (image_lost [] (create_trace [[104; 105]] [[1; 0]]) (9 + 0) 19 0) = Some [1; 0].
 Proof. repeat split; vm_compute; try reflexivity; lia. Qed.
 
-(* ---------------- the unsafe window: archives with an ENCODED header ---------------- *)
+(* ---------------- down to the plain header: raw AND encoded headers, any decoder ---------------- *)
 
-(* py7zr writes encoded headers WITHOUT the CRC of the plain header (UnpackInfo.write: "FIXME: write
-   CRCs here"), and an append writes the new data exactly over the packed old header while the old
-   signature header and the old descriptor still verify.  If the first data write has the length of
-   the packed header, the file left by a crash right after it opens with WHATEVER THE NEW DATA DECODES
-   TO as its header (for every decoder chain dec) *)
-Theorem C14_append_encoded_window : forall lim dec old oh f pp ps us d,
+(* Since the repair "store the CRC of the plain header in an encoded header" every descriptor py7zr writes
+   carries that CRC (desc_protected; checked on every recorded session by the harness), and Header._read
+   compares it with what the packed header decodes to.  An append writes its data over the packed old
+   header while the old signature header and descriptor still verify; with the CRC in the descriptor:
+   EVERY crash point of EVERY append session, for EVERY decoder chain dec: if the reader ends up with a
+   plain header h at all, then the file is the old archive below p and h is the OLD plain header (or a
+   CRC collision of it), or the next header collides with the old one, or the file is the complete NEW
+   archive, or the start-header CRC collides on the two named strings *)
+Theorem C14_append_plain_crash_safe : forall lim dec old p pre hdr oh pho,
+  wf_bytes old = true -> open_view old = Some oh -> plain_header lim dec old = Some pho ->
+  desc_protected lim oh = true -> (32 <= p <= length old)%nat ->
+  forall k j h,
+  plain_header lim dec (image_at old (append_trace old p pre hdr) k j) = Some h ->
+  (firstn p (image_at old (append_trace old p pre hdr) k j) = firstn p old /\ (h = pho \/ collides h pho))
+  \/ (exists v, open_view (image_at old (append_trace old p pre hdr) k j) = Some v /\ collides v oh)
+  \/ image_at old (append_trace old p pre hdr) k j = final_image old (append_trace old p pre hdr)
+  \/ exists m, (m < 16)%nat /\
+       collides (mix m (new20 (Z.of_nat p - 32) pre hdr) (old20 old)) (new20 (Z.of_nat p - 32) pre hdr).
+Proof. exact append_plain_crash_safe_proof. Qed.
+Print Assumptions C14_append_plain_crash_safe.
+
+Theorem C14_create_plain_crash_safe : forall lim dec pre hdr k j h,
+  plain_header lim dec (image_at [] (create_trace pre hdr) k j) = Some h ->
+  image_at [] (create_trace pre hdr) k j = final_image [] (create_trace pre hdr)
+  \/ exists m v, (9 <= m <= 15)%nat /\ 256 ^ (Z.of_nat m - 8) <= zlenb (concat hdr) /\
+       collides (mix m (new20 0 pre hdr) skel20) (new20 0 pre hdr) /\
+       open_view (image_at [] (create_trace pre hdr) k j) = Some v /\ crc32 v = 4.
+Proof. exact create_plain_crash_safe_proof. Qed.
+Print Assumptions C14_create_plain_crash_safe.
+
+(* hypotheses met: an encoded-header archive whose descriptor carries the CRC (identity decoder); the crash
+   right after the data write over its packed header is now REJECTED; the complete session is accepted *)
+Example C14_append_plain_example :
+  wf_bytes toy_old_crc = true /\ open_view toy_old_crc = Some toy_desc_crc /\
+  desc_protected 1000 toy_desc_crc = true /\ plain_header 1000 copy_dec toy_old_crc = Some [1; 0] /\
+  (32 <= 32 <= length toy_old_crc)%nat /\
+  plain_header 1000 copy_dec (image_at toy_old_crc (append_trace toy_old_crc 32 [[7; 7]] [[1; 0]]) 1 2) = None /\
+  plain_header 1000 copy_dec (final_image toy_old_crc (append_trace toy_old_crc 32 [[7; 7]] [[1; 0]])) = Some [1; 0].
+Proof. repeat split; vm_compute; try reflexivity; lia. Qed.
+
+(* ---------------- descriptors written BEFORE the repair (no CRC of the plain header) ---------------- *)
+
+(* the reader still accepts them; appending to such an archive keeps the window open: if the first data
+   write has the length of the packed header, the file left by a crash right after it opens with WHATEVER
+   THE NEW DATA DECODES TO as its header (for every decoder chain dec) *)
+Theorem C14_append_legacy_descriptor_window : forall lim dec old oh f pp ps us d,
   open_view old = Some oh -> enc_desc lim oh = Some (f, (pp, ps, us)) -> f_digestdefined f = false ->
   0 <= pp -> zlenb d = ps -> 32 + pp + ps <= 32 + sig_ofs old ->
   (Z.to_nat (32 + pp) + length d <= length old)%nat ->
   plain_header lim dec (write_at old (Z.to_nat (32 + pp)) d) = dec f d us.
 Proof. exact append_encoded_window_proof. Qed.
-Print Assumptions C14_append_encoded_window.
+Print Assumptions C14_append_legacy_descriptor_window.
 
 Theorem C14_append_first_write : forall old p d pre hdr,
   image_at old (append_trace old p (d :: pre) hdr) 1 (length d) = write_at old p d.
 Proof. exact append_first_write. Qed.
 Print Assumptions C14_append_first_write.
 
-(* so "every crash point of an append opens as the old or the new archive, or not at all" is FALSE of
-   the faithful model: witness with the identity decoder (old and new plain header 01 00, the crash
-   image presents 07 07) *)
-Theorem C14_append_crash_safe_refuted :
+(* witness (identity decoder): old and new plain header 01 00, the crash image presents 07 07 *)
+Theorem C14_legacy_descriptor_witness :
   exists lim dec old p pre hdr k j h,
     wf_bytes old = true /\ (32 <= p <= length old)%nat /\
     plain_header lim dec old = Some [1; 0] /\
     plain_header lim dec (final_image old (append_trace old p pre hdr)) = Some [1; 0] /\
     plain_header lim dec (image_at old (append_trace old p pre hdr) k j) = Some h /\
     h <> [1; 0].
-Proof. exact append_crash_safe_refuted_proof. Qed.
-Print Assumptions C14_append_crash_safe_refuted.
+Proof. exact legacy_descriptor_witness_proof. Qed.
+Print Assumptions C14_legacy_descriptor_witness.
 
-(* what does hold for appends (C14_append_crash_safe above) is the _partial statement: signature
-   header + next header (the descriptor, for an encoded header) are the old or the new ones up to the
-   named collisions; for a raw old header that is the whole member list *)
-Theorem C14_append_crash_safe_partial : forall old p pre hdr oh,
-  wf_bytes old = true -> open_view old = Some oh -> (32 <= p <= length old)%nat ->
-  forall k j h,
-  open_view (image_at old (append_trace old p pre hdr) k j) = Some h ->
-  (firstn p (image_at old (append_trace old p pre hdr) k j) = firstn p old /\ (h = oh \/ collides h oh))
-  \/ image_at old (append_trace old p pre hdr) k j = final_image old (append_trace old p pre hdr)
-  \/ exists m, (m < 16)%nat /\
-       collides (mix m (new20 (Z.of_nat p - 32) pre hdr) (old20 old)) (new20 (Z.of_nat p - 32) pre hdr).
-Proof. exact append_crash_safe_proof. Qed.
-Print Assumptions C14_append_crash_safe_partial.
-
-(* hypotheses of the window theorem met by the witness *)
-Example C14_encoded_window_example :
-  open_view toy_old = Some toy_desc /\
+Example C14_legacy_window_example :
+  open_view toy_old = Some toy_desc /\ desc_protected 1000 toy_desc = false /\
   (exists f, enc_desc 1000 toy_desc = Some (f, (0, 2, 2)) /\ f_digestdefined f = false) /\
   32 + 0 + 2 <= 32 + sig_ofs toy_old /\ (Z.to_nat (32 + 0) + length [7; 7] <= length toy_old)%nat.
 Proof.
-  split; [vm_compute; reflexivity|]. split.
+  split; [vm_compute; reflexivity|]. split; [vm_compute; reflexivity|]. split.
   - eexists. split; vm_compute; reflexivity.
   - split; vm_compute; [discriminate | lia].
 Qed.
